@@ -191,6 +191,70 @@ def cluster_run(sym, tier):
     return r
 
 
+_LAT_S = [0.005, 0.25, 0.4]
+_RUMOUR_S = [0.3, 0.7, 1.2, 1.6, 2.2, 2.6, 3.3, 3.7]
+
+
+def probe_cycle(sym, tier):
+    """3 live, responsive nodes; the a<->b links are slow (one-way up to 0.4 x probe interval, so the
+    ack can arrive after the indirect-probe timer has armed a suspicion timer) and a 'suspect b'
+    rumour (a transient phi suspicion at a third node) reaches a at a symbolic instant.  An
+    acknowledged probe leaves no timer behind that could later declare b DEAD."""
+    r = Result()
+    mem_mod.random = _SymRandom(sym, symbolic_calls=5 if tier == "quick" else 8)
+    R = 7
+    ab = _LAT_S[sym.choice("latency_a_to_b", 3)]
+    ba = _LAT_S[sym.choice("latency_b_to_a", 3)]
+    rumour_at = _RUMOUR_S[sym.choice("rumour_at", len(_RUMOUR_S))]
+    net = Network(name="net")
+    nodes = [MembershipProtocol(n, net, probe_interval=1.0, suspicion_timeout=2.0) for n in ("a", "b", "c")]
+    a, b, c = nodes
+    for x in nodes:
+        for y in nodes:
+            if x is not y:
+                lat = ab if (x is a and y is b) else ba if (x is b and y is a) else 0.005
+                x.add_member(y)
+                net.add_link(x, y, NetworkLink(name=f"{x.name}-{y.name}", latency=ConstantLatency(lat)))
+    sim = Simulation(entities=[net] + nodes, end_time=Instant.from_seconds(R + 0.9))
+    mon = Monitor(sim, cap=60)
+    false_dead = []
+    seen_suspect = []
+
+    def check(ev):
+        for x in nodes:
+            for y in nodes:
+                if x is not y and x.get_member_state(y.name) == MemberState.DEAD:
+                    false_dead.append((x.name, y.name, sim._clock.now.nanoseconds))
+        if a.get_member_state("b") == MemberState.SUSPECT:
+            seen_suspect.append(1)
+
+    sim.control.on_event(check)
+    evs = []
+    for x in nodes:
+        evs.extend(x.start())
+    from happysimulator.core.event import Event
+
+    def rumour(e):
+        return [net.send(source=c, destination=a, event_type="MembershipPing",
+                         payload={"from": "c", "incarnation": 0, "updates": [{"member": "b", "state": "suspect", "incarnation": 0}]}, daemon=True)]
+    evs.append(Event.once(time=Instant.from_seconds(rumour_at), event_type="rumour", fn=rumour))
+    evs.append(mk_event(int((R + 0.8) * 1e9), "keepalive", a))
+    sim.schedule(evs)
+    try:
+        sim.run()
+    except SpinDetected:
+        pass
+    mon.judge(r, "membership")
+    if false_dead:
+        r.bad("no_live_member_is_ever_marked_dead", {"observer_member_ns": false_dead[0], "a_to_b_s": ab, "b_to_a_s": ba, "rumour_at_s": rumour_at})
+    if seen_suspect:
+        r.wit.add("rumour_made_b_suspect_at_a")
+    if ab + ba >= 0.5:
+        r.wit.add("ack_after_indirect_probe_timer")
+    r.obs = {"states": {x.name: {y.name: x.get_member_state(y.name).name for y in nodes if y is not x} for x in nodes}}
+    return r
+
+
 def classify(clause, draws, obs):
     """Known finding: an observer that never received a heartbeat from the crashed member has an empty
     phi history (phi == 0 for ever) and never suspects it."""
@@ -217,6 +281,15 @@ HARNESSES = [
       require=lambda tier: ["dead_to_alive", "became_dead"], classify=classify,
       functions=["MembershipProtocol._apply_updates", "MembershipProtocol._handle_ping", "MembershipProtocol._handle_ack", "MembershipProtocol._handle_suspicion_timeout"],
       bounds=lambda tier: {"view": "symbolic (state, incarnation in [0,2])", "input": "<=2 updates with symbolic state/incarnation | ack | ping | suspicion timeout"}),
+    H(name="c13_probe_cycle", fn=probe_cycle, shape="S", budget=lambda tier: 900.0 if tier == "quick" else 3000.0,
+      cubes=lambda tier: [{"latency_a_to_b": i, "latency_b_to_a": j} for i in range(3) for j in range(3)],
+      require=lambda tier: ["rumour_made_b_suspect_at_a", "ack_after_indirect_probe_timer"], classify=classify,
+      functions=["MembershipProtocol._handle_probe_tick/_handle_ack/_handle_indirect_ping/_handle_suspicion_timeout/_apply_updates", "Network.send", "Simulation.run"],
+      bounds=lambda tier: {"cluster": "3 live nodes, probe interval 1 s, suspicion timeout 2 s, 7 rounds", "a<->b one-way latency": _LAT_S,
+                           "rumour": "'suspect b' (incarnation 0) piggy-backed on a ping from c to a at one of %s s" % _RUMOUR_S,
+                           "probe orders": "first 5 (quick) / 8 (thorough) shuffles symbolic"},
+      assumptions=["a third node may transiently suspect a live member and gossip it (phi false suspicion)"],
+      outside=["one-way delays above 0.4 x probe interval", "more than one rumour"]),
     H(name="c13_phi_monotone", fn=phi_monotone, shape="K", budget=lambda tier: 900.0,
       cubes=lambda tier: [{"interval0": a} for a in range(len(PHI_INTERVALS))],
       require=lambda tier: ["phi_grows"], classify=classify,
